@@ -402,6 +402,19 @@ func (fr *Frame) tr(e ast.Expr, env *Env) Val {
 				return Val{t, types.Typ[types.Int]}
 			}
 		}
+		if !env.noLocals && x.Name == "rangeover" && env.loopOrd > 0 {
+			if v, ok := fr.loopRangeOver[env.loopOrd]; ok {
+				return v
+			}
+		}
+		if !env.noLocals && strings.HasPrefix(x.Name, "rangeover") && len(x.Name) > len("rangeover") {
+			// rangeoverN: the slice ranged by loop N (usable in ensures clauses)
+			if n, err := strconv.Atoi(x.Name[len("rangeover"):]); err == nil {
+				if v, ok := fr.loopRangeOver[n]; ok {
+					return v
+				}
+			}
+		}
 		if !env.noLocals && x.Name == "rangeindex" && env.loopOrd > 0 {
 			if a, ok := fr.loopRangeIdx[env.loopOrd]; ok {
 				return Val{fr.ctx.readCell(env.st, a, types.Typ[types.Int], nil), types.Typ[types.Int]}
